@@ -133,8 +133,11 @@ int main(int argc, char **argv)
 {
 	vh_args_t a;
 	vh_rng_t rng;
-	int prov, nthr = 8, repeats = 3, nops;
+	int prov, nthr = 8, repeats = 3, nops, cold;
 	vh_parse_args(argc, argv, &a);
+	/* cold: the worker threads make the process's very first sign/verify calls (first-use initialisation inside the library is
+	 * raced); the sequential reference pass runs afterwards */
+	cold = a.mode && !strcmp(a.mode, "cold");
 	prov = a.arg1 ? atoi(a.arg1) : 0;
 	if (a.arg2) sscanf(a.arg2, "%d,%d", &nthr, &repeats);
 	nops = a.n > 0 ? (int)a.n : 200;
@@ -176,6 +179,7 @@ int main(int argc, char **argv)
 				/* few keys per repeat so that threads collide on the same items */
 				int k = (int)vh_below(&rng, NKEY);
 				if (vh_below(&rng, 3)) k = (rep * 2 + (int)vh_below(&rng, 3)) % NKEY;
+				if (cold) k = (t + i) % NKEY;	/* every algorithm among the first calls */
 				T[t].ops[i] = (op_t){ (int)vh_below(&rng, 3), k, (int)vh_below(&rng, 6) };
 			}
 		}
@@ -191,10 +195,11 @@ int main(int argc, char **argv)
 			free(jwk);
 		}
 		/* sequential baseline (no injected delays) on the private copies */
-		{ jwk_set_t *shared_kid = kidring; kidring = kidring_b; PRIV = PRIV_B; PUB = PUB_B;
+		if (!cold) { jwk_set_t *shared_kid = kidring; kidring = kidring_b; PRIV = PRIV_B; PUB = PUB_B;
 		chaos = 0;
 		for (int t = 0; t < nthr; t++) for (int i = 0; i < nops; i++) run_op(&T[t].ops[i], &T[t].base[i], t, i);
 		kidring = shared_kid; PRIV = PRIV_S; PUB = PUB_S; }
+		else { PRIV = PRIV_S; PUB = PUB_S; }
 		/* concurrent run */
 		chaos = 1;
 		pthread_barrier_init(&barrier, NULL, (unsigned)nthr);
@@ -204,6 +209,8 @@ int main(int argc, char **argv)
 		chaos = 0;
 		PRIV = PRIV_B; PUB = PUB_B;
 		jwks_free(ring); jwks_free(kidring); ring = NULL; kidring = kidring_b;
+		if (cold)
+			for (int t = 0; t < nthr; t++) for (int i = 0; i < nops; i++) run_op(&T[t].ops[i], &T[t].base[i], t, i);
 		for (int t = 0; t < nthr; t++) {
 			yields += T[t].yields;
 			for (int i = 0; i < nops; i++) {
